@@ -7,6 +7,9 @@ inductive Hex where
   | inline (a : List UInt8) (len : Nat)      -- `Bytes([u8; 8], usize)`
 deriving Repr, DecidableEq
 
+/-- `Hex::empty()` -/
+instance : Inhabited Hex := ⟨.inline (List.replicate 8 0) 0⟩
+
 /-- well-formed representations: the array has 8 cells and the length does not exceed it (padding is arbitrary) -/
 def Hex.WF : Hex → Prop
   | .vector _ => True
